@@ -88,9 +88,11 @@ def TaskWf (c : Core) : Task → Prop
   | .load _ => True
   | .clone _ => True
   | .move item dest => NF c item ∧ NF c dest
+  | .moveStr item _ => NF c item
   | .fan item dest cur save => NF c item ∧ NF c dest ∧ (∀ ob, cur = some ob → NF c ob) ∧ (c.objs item).super = some dest ∧
       (∀ g, save = some g → NF c g)
   | .command a _ => NF c a
+  | .present _ _ cur => ∀ ob, cur = some ob → NF c ob
   | .destruct ob => NF c ob
   | .dloop ob sup0 _ => NF c ob ∧ (c.objs ob).destructed = false ∧ (∀ s, sup0 = some s → NF c s)
 
